@@ -373,14 +373,14 @@ func c12Build(kind, n int) (Item, func()) {
 
 const c12Kinds = 15
 
-// VerifC12_Constructed: every constructor kind x 0..3 elements: overwriting the constructor's
+// VerifC12_Constructed: every constructor kind x 0..3 (thorough 0..4) elements: overwriting the constructor's
 // input slices and every slice handed out by every accessor leaves every observation unchanged.
 func VerifC12_Constructed() {
 	vsymExpect("compared")
 	kind := vsymChoose(c12Kinds)
-	maxN := 2
+	maxN := 3
 	if vsymTier() == 1 {
-		maxN = 3
+		maxN = 4
 	}
 	n := vsymChoose(maxN + 1)
 	it, clobberInputs := c12Build(kind, n)
